@@ -162,6 +162,8 @@ func (this *ETHHandler) SyncBlockHeader(native *native.NativeService) error {
 		//London hard fork
 		if isLondon(&header) {
 			err = VerifyEip1559Header(parentHeader, &header)
+		} else if header.BaseFee != nil {
+			err = fmt.Errorf("invalid baseFee before fork: have %d, expected 'nil'", header.BaseFee)
 		} else {
 			err = VerifyGaslimit(parentHeader.GasLimit, header.GasLimit)
 		}
